@@ -27,7 +27,18 @@ def history(rng, tag, nops, start, dump_every=1, weights=None, numkind=None):
         if rng.random() < 0.15:
             ops.append("Q h0 counts")
     ops += ["Q h0 counts", "Q h0 rows", "Q h0 cols", "Q h0 rownames", "Q h0 colnames", "DUMP h0"]
+    ops += coef_sweep(rng, len(g.sh.rows), len(g.sh.cols))
     return ops, g
+
+
+def coef_sweep(rng, m, n, cap=400):
+    """mpq_QSget_coef on every cell (a sample of `cap` cells on large problems): the single-coefficient query walks the stored column
+    itself, so it is the one observer that depends on the ORDER of a column's entries (fill-in from mpq_QSchange_coef and
+    mpq_QSadd_col with unsorted rows store entries out of row order)"""
+    cells = [(i, j) for i in range(m) for j in range(n)]
+    if len(cells) > cap:
+        cells = rng.sample(cells, cap)
+    return ["Q h0 coef %d %d" % c for c in cells]
 
 
 def threshold_history(rng, tag, which):
@@ -128,6 +139,7 @@ def reloc_history(rng, tag, repeat=False):
         else:
             ops.append("NEWCOL h0 %s 0 inf -" % small()); n += 1
     ops += ["Q h0 counts", "DUMP h0"]
+    ops += coef_sweep(rng, m, n)
     return ops
 
 
